@@ -3,8 +3,11 @@ from vlib import *
 import iongen
 import binlib
 
-THEOREMS = []
+import c07text
+import c07text_tr
+THEOREMS = ["tr_sticky_reach", "tr_sticky", "tr_sticky_run"]
 LEVEL = "other"
+TRUSTED_EXTRA = getattr(c07text_tr, "TRUSTED_EXTRA", [])
 EXPLANATION = ("valid binary documents x an enumerated catalogue of spec-invalidating edits (truncation at every byte "
                "offset, length overruns, illegal tag/length combinations, negative-zero integers, annotation-wrapper "
                "inconsistencies, NOP/annotation misuse, reserved type codes, one-byte mutations) judged invalid by the "
@@ -88,3 +91,11 @@ def run(ctx):
 
 def classify_case(line, go):
     return None
+
+
+_run_binary = run
+
+
+def run(ctx):
+    _run_binary(ctx)
+    c07text.run(ctx)          # text: catalogue of malformed texts judged by the independent Coq decoder SpecText.tdecode
